@@ -169,6 +169,18 @@ func solveObl(vc *VC, o *Obl, dir string, tier string, seed int, idx int) {
 		}
 		cancel()
 	}
+	if !decided && tier == "quick" && knownObl[oblStem(o.Name)] {
+		// a recorded, unrepaired finding: it failed as expected within the short budget
+		o.Result, o.Solver = final.result, final.solver
+		o.Output = trunc(final.out, 6000)
+		if candidate != nil {
+			o.Result = "sat-without-string-axioms"
+			o.Solver = candidate.solver
+			o.Model = candidate.out
+			o.Output = "full script: " + final.result + "; without the quantified string axioms: sat (candidate counterexample)\n" + trunc(candidate.out, 6000)
+		}
+		return
+	}
 	if !decided && tier == "candidate" {
 		// Houdini pre-pass: a candidate invariant that is not proved at once is simply dropped
 		o.Result, o.Solver = "unknown", final.solver
